@@ -1278,7 +1278,19 @@ def _root_local(self, op):
             if "ref" in rv:
                 r = rv["ref"]
                 if not r["proj"]:
-                    return r["l"]
+                    # `&local`: the local itself, or -- when it merely holds a value moved / copied out of another
+                    # local (the result of an inlined helper) -- the local that value was built in
+                    l2 = r["l"]
+                    for _ in range(8):
+                        ds2 = self.defs().get(l2, [])
+                        if len(ds2) != 1 or ds2[0][0] != "stmt":
+                            break
+                        rv2 = self.blocks[ds2[0][1]]["stmts"][ds2[0][2]]["rv"]
+                        n2 = (rv2["use"].get("copy") or rv2["use"].get("move")) if "use" in rv2 else None
+                        if n2 is None or n2["proj"]:
+                            break
+                        l2 = n2["l"]
+                    return l2
                 if r["proj"] == ["deref"]:
                     pl = r
                     continue
